@@ -347,14 +347,33 @@ static std::string ExactDesc(const std::vector<GwCfg> & cfgs, const ExactCase & 
                      e.seq == 0 ? "Message(size), empty Message, Message(size) with other bytes" : "one Message of every size from 12 up to size, ascending", e.flat);
 }
 
+// A packet transport that accepts everything it is offered EXCEPT that its `refuseAt`-th WriteTo() call is answered with 0 ("try again later",
+// e.g. a full socket buffer) once; whatever it accepted is delivered once and in order.  The sender must offer the refused packet again.
+class RefusingPacketIO : public ByteBufferPacketDataIO {
+public:
+   int calls, refuseAt; bool refusedNow;
+   RefusingPacketIO(uint32 mtu, int refuse) : ByteBufferPacketDataIO(mtu), calls(0), refuseAt(refuse), refusedNow(false) {}
+   virtual io_status_t WriteTo(const void * buffer, uint32 size, const IPAddressAndPort & dest)
+   {
+      if (calls++ == refuseAt) { refusedNow = true; return io_status_t(0); }
+      return ByteBufferPacketDataIO::WriteTo(buffer, size, dest);
+   }
+};
+
+static void RunExactCaseR(const std::vector<GwCfg> & cfgs, const ExactCase & e, int refuse, mutx::Case & c);
 static void RunExactCase(const std::vector<GwCfg> & cfgs, const ExactCase & e, mutx::Case & c)
 {
+   RunExactCaseR(cfgs, e, -1, c);
+   if (cfgs[e.cfg].io == IO_PACKET) for (int r = 0; r < 3 && !c.failed; r++) RunExactCaseR(cfgs, e, r, c);   // the same exchange with the 1st / 2nd / 3rd packet write refused once
+}
+static void RunExactCaseR(const std::vector<GwCfg> & cfgs, const ExactCase & e, int refuse, mutx::Case & c)
+{
    SetConsoleLogLevel(MUSCLE_LOG_NONE);
-   GwCfg cfg = cfgs[e.cfg]; cfg.mtu = e.mtu; const uint32 mtu = EffMtu(cfg); const std::string cn = CfgName(cfg);
+   GwCfg cfg = cfgs[e.cfg]; cfg.mtu = e.mtu; const uint32 mtu = EffMtu(cfg); const std::string cn = CfgName(cfg) + (refuse >= 0 ? ":one-packet-write-refused-once" : "");
    std::vector<MsgSpec> seq; SeqFor(e, seq);
    std::vector<std::string> sent, expected; std::vector<int> expectedIdx; uint32 biggestExpected = 0;
    Gw tx; tx.Build(cfg); Gw rx; rx.Build(cfg);
-   ByteBufferPacketDataIO txp(mtu), rxp(mtu);
+   RefusingPacketIO txp(mtu, refuse); ByteBufferPacketDataIO rxp(mtu);
    ByteBufferRef stream = GetByteBufferFromPool(0);
    ByteBufferDataIO txs(stream), rxs(stream); PacketizedProxyDataIO txz(DummyDataIORef(txs), mtu), rxz(DummyDataIORef(rxs), mtu);
    if (cfg.io == IO_PACKET) { tx.gw()->SetDataIO(DummyDataIORef(txp)); rx.gw()->SetDataIO(DummyDataIORef(rxp)); }
@@ -371,6 +390,7 @@ static void RunExactCase(const std::vector<GwCfg> & cfgs, const ExactCase & e, m
    for (int guard = 0; ; guard++) {
       io_status_t r = tx.gw()->DoOutput();
       if (r.IsError()) { c.Fail("exact:" + cn + ":output-error", verif::Fmt("DoOutput returned error [%s]", r.GetStatus()())); return; }
+      if (r.GetByteCount() <= 0 && txp.refusedNow) { txp.refusedNow = false; continue; }   // the transport said "later": the caller comes back, as an event loop does when the socket is writable again
       if (r.GetByteCount() <= 0) break;
       if (guard > 10000000) { c.Fail("exact:" + cn + ":output-never-ends", "DoOutput keeps returning >0"); return; }
    }
@@ -417,7 +437,7 @@ static void RunExactCase(const std::vector<GwCfg> & cfgs, const ExactCase & e, m
       if (pkt && cfg.slave && (!d.hasTag || !(d.tag == from))) { c.Fail("exact:" + cn + ":source-tag-wrong", "PR_NAME_PACKET_REMOTE_LOCATION tag missing or wrong"); return; }
       if ((!pkt || !cfg.slave) && d.hasTag) { c.Fail("exact:" + cn + ":source-tag-unexpected", "unexpected source tag"); return; }
    }
-   c.Outcome(verif::Fmt("%s/%u/%u", cn.c_str(), (unsigned)expected.size(), (unsigned)(sent.size() - expected.size())));
+   if (refuse < 0) c.Outcome(verif::Fmt("%s/%u/%u", cn.c_str(), (unsigned)expected.size(), (unsigned)(sent.size() - expected.size())));
 }
 
 static void AddSizesAround(std::set<int> & s, int centre, int radius, int maxFlat) { for (int d = -radius; d <= radius; d++) { int f = centre + d; if (f >= 12 && f <= maxFlat && ReachableFlatSize(f)) s.insert(f); } }
